@@ -24,8 +24,8 @@ Definition ri_access_table : list string := [
   "ants/task_callback_ants.go:taskCallback.runTaskOnce|defer{ C:cancel } func{ C:handler select{ case{ recv:Done send:doneChan } case{ default send:doneChan } } } C:sendInnerCallback select{ case{ recv:doneChan R:result R:err W:result W:err } case{ recv:Done W:result W:err } }";
   "ants/task_callback_ants.go:taskCallback.run|defer{ S:wg.Done } for{ C:runTaskOnce if( R:err ){ ret } } if( ){ R:err C:onError }";
   "cachex/cache_impl.go:cacheImpl.Get1|C:Get2 ret";
-  "cachex/cache_impl.go:cacheImpl.Get2|R:futures S:futures.Lock R:d S:futures.Unlock C:getFutureStatus switch{ case{ C:fetchIfFutureStatusGood C:Get2 ret } case{ C:Get2 ret } } ret";
-  "cachex/cache_impl.go:cacheImpl.Load|R:futures S:futures.Lock R:d C:getFutureStatus if( ){ C:newFuture W:d[] } S:futures.Unlock if( ){ C:sendJob } switch{ case{ C:fetchIfFutureStatusGood ret } case{ ret } case{ ret } } ret";
+  "cachex/cache_impl.go:cacheImpl.Get2|R:futures S:futures.Lock R:d C:getFutureStatus if( ){ C:fetchIfFutureStatusGood } S:futures.Unlock switch{ case{ C:Get2 ret } case{ C:Get2 ret } } ret";
+  "cachex/cache_impl.go:cacheImpl.Load|R:futures S:futures.Lock R:d C:getFutureStatus if( ){ C:newFuture W:d[] } if( ){ C:fetchIfFutureStatusGood } S:futures.Unlock if( ){ C:sendJob } switch{ case{ ret } case{ ret } case{ ret } } ret";
   "cachex/cache_impl.go:cacheImpl.Set|R:futures S:futures.Lock C:newFuture C:setValue W:d[] S:futures.Unlock";
   "cachex/cache_impl.go:cacheImpl.fetchIfFutureStatusGood|C:getPredecessor C:getFutureStatus if( ){ ret } ret";
   "cachex/cache_impl.go:cacheImpl.getFutureStatus|if( ){ C:getUpdateTime if( ){ ret } if( R:err ){ } if( ){ ret } else{ if( ){ ret } else{ ret } } } ret";
@@ -153,8 +153,8 @@ Definition ri_rows_in_table : bool :=
    wc.mutex. As an instance: 4 threads, sections of reads (false) / writes (true) of the map
    (location 1). *)
 Definition ri_lock_rows : list string := [
-  "cachex/cache_impl.go:cacheImpl.Load|R:futures S:futures.Lock R:d C:getFutureStatus if( ){ C:newFuture W:d[] } S:futures.Unlock if( ){ C:sendJob } switch{ case{ C:fetchIfFutureStatusGood ret } case{ ret } case{ ret } } ret";
-  "cachex/cache_impl.go:cacheImpl.Get2|R:futures S:futures.Lock R:d S:futures.Unlock C:getFutureStatus switch{ case{ C:fetchIfFutureStatusGood C:Get2 ret } case{ C:Get2 ret } } ret";
+  "cachex/cache_impl.go:cacheImpl.Load|R:futures S:futures.Lock R:d C:getFutureStatus if( ){ C:newFuture W:d[] } if( ){ C:fetchIfFutureStatusGood } S:futures.Unlock if( ){ C:sendJob } switch{ case{ ret } case{ ret } case{ ret } } ret";
+  "cachex/cache_impl.go:cacheImpl.Get2|R:futures S:futures.Lock R:d C:getFutureStatus if( ){ C:fetchIfFutureStatusGood } S:futures.Unlock switch{ case{ C:Get2 ret } case{ C:Get2 ret } } ret";
   "cachex/cache_impl.go:cacheImpl.Set|R:futures S:futures.Lock C:newFuture C:setValue W:d[] S:futures.Unlock";
   "cachex/cache_impl.go:cacheImpl.removeRotted|for{ R:futures S:futures.Lock for{ R:d C:getFutureStatus if( ){ R:d } } S:futures.Unlock }";
   "loom/wait_close.go:WaitClose.Close|if( A:LoadInt32:state ){ S:mutex.Lock defer{ func{ S:mutex.Unlock } } if( R:state ){ if( R:state ){ close:closeChan } else{ W:closeChan } defer{ A:StoreInt32:state } if( ){ C:callback ret } } } ret";
